@@ -84,6 +84,13 @@ Proof.
 exact: (@band_det_spec_lemma Qc_fieldType Qc_abs Qc_ltb Qc_leb AQ_PivLaws B).
 Qed.
 
+Theorem band_det_nonzero_iff_Qc_lemma (B : banded AQ) :
+  @wfB AQ B -> (bm1 B <= bn B)%coq_nat ->
+  exists dd : Qc, @band_det AQ B = Ok dd /\ (dd <> Q2Qc 0 <-> @trivial_kernel AQ B).
+Proof.
+exact: (@band_det_nonzero_iff_lemma Qc_fieldType Qc_abs Qc_ltb Qc_leb AQ_PivotLaws B).
+Qed.
+
 (* every (n, m1, m2) at the exact tier *)
 Theorem band_det_total_Qc_lemma (B : banded AQ) :
   @wfB AQ B ->
@@ -98,3 +105,4 @@ Qed.
 Print Assumptions band_det_is_det_Qc_lemma.
 Print Assumptions band_det_spec_Qc_lemma.
 Print Assumptions band_det_total_Qc_lemma.
+Print Assumptions band_det_nonzero_iff_Qc_lemma.
